@@ -46,6 +46,11 @@
 (* named schema is built, so the schema's own name is validated too):      *)
 (* operator Touches.  The order in which one call touches several cells is *)
 (* left open.                                                              *)
+(*                                                                         *)
+(* Related modules: AtomicSettings (the contract as one atomic step per     *)
+(* access; MC_Settings checks that this module refines it), MC_Settings    *)
+(* (bounded instances, scenario emission), Trace_Settings (judging the     *)
+(* recorded executions of the real crate).                                 *)
 (***************************************************************************)
 EXTENDS Naturals, Sequences, FiniteSets, TLC
 
